@@ -63,7 +63,7 @@ func init() {
 	core.Register(&core.Prop{
 		ID:    "C17",
 		Level: "exploration",
-		Rule: "seeded charts packaged and signed by helm (action.Package --sign and Signatory.ClearSign) with OpenPGP RSA keys generated per worker; per chart: every byte position (stride-sampled to ~240 positions per part in the quick tier; thorough: all positions, all 8 bit flips at every 4th) of archive, clear-signed headers+body and signature armor × {bit flip, byte replacement, insertion, deletion, truncation}; structural mutants (re-signed messages with swapped / extra / missing file entries, other signer, other hash, duplicated / prefixed blocks, several clear-signed blocks (untrusted-key block vouching for a tampered archive before / after / around the genuine block, blank-line and text gaps) with the tampered archive on disk, CRLF, trailing blanks, header changes, second signature block); keyrings {signer, signer+others, others, empty, missing, secret ring, same user id other key}; keyring files rewritten in place between verifications (same path, same process: signer removed / added / file emptied / removed / replaced by rename); renamed / moved archives; through Signatory.Verify and downloader.VerifyChart (all mutants) and action.Verify, LocateChart(Verify), DownloadTo(VerifyAlways/VerifyIfPossible/VerifyLater) (sampled + all structural) and Manager.Update(VerifyIfPossible/VerifyAlways) / Manager.Build(VerifyIfPossible) on a local-server repository dependency (the dependency whose verification must fail must give an error and must not reach charts/). " +
+		Rule: "seeded charts packaged and signed by helm (action.Package --sign and Signatory.ClearSign) with OpenPGP RSA keys generated per worker; per chart: every byte position (stride-sampled to ~240 positions per part in the quick tier; thorough: all positions, all 8 bit flips at every 4th) of archive, clear-signed headers+body and signature armor × {bit flip, byte replacement, insertion, deletion, truncation}; structural mutants (re-signed messages with swapped / extra / missing file entries, other signer, other hash, duplicated / prefixed blocks, several clear-signed blocks (untrusted-key block vouching for a tampered archive before / after / around the genuine block, blank-line and text gaps) with the tampered archive on disk, CRLF, trailing blanks, header changes, second signature block); keyrings {signer, signer+others, others, empty, missing, secret ring, same user id other key}; keyring files rewritten in place between verifications (same path, same process: signer removed / added / file emptied / removed / replaced by rename); renamed / moved archives incl. names not ending in .tgz (.tar.gz, .tar, none, .zip, ...; untouched and tampered bytes) by direct URL, repository index reference and dependency manager; through Signatory.Verify and downloader.VerifyChart (all mutants) and action.Verify, LocateChart(Verify), DownloadTo(VerifyAlways/VerifyIfPossible/VerifyLater) (sampled + all structural) and Manager.Update(VerifyIfPossible/VerifyAlways) / Manager.Build(VerifyIfPossible) on a local-server repository dependency (the dependency whose verification must fail must give an error and must not reach charts/). " +
 			"distinct_nontrivial counts (part, mutation kind, expected outcome, entry point) tuples.",
 		Assumptions: []string{
 			"golang.org/x/crypto/openpgp (clearsign.Decode, CheckDetachedSignature, armor) is the trusted definition of 'valid signature by a key in the keyring'",
@@ -556,7 +556,7 @@ func (c *checker) download(part, kind string, base string, archive, prov []byte,
 		})
 		c.judge("DownloadTo(VerifyIfPossible)", part, kind, expect, hard, vd, sum, detail)
 		byteLevel := part == "archive" || part == "body" || part == "armor" || part == "header"
-		if !byteLevel || c.count%4 == 0 {
+		if !byteLevel || c.count%8 == 0 {
 			c.manager(part, kind, base, archive, prov, ringFile, expect, hard, sum, detail)
 		}
 	}
@@ -652,6 +652,39 @@ func (c *checker) manager(part, kind, base string, archive, prov []byte, ringFil
 		core.Guard(c.res, st.name, func() { err = m.Update() })
 		c.judge(st.name, part, kind, expect, hard, verdict{ok: err == nil, err: err, hash: sum}, sum, detail)
 		stored(st.name, dst, nil, err)
+	}
+	// the same repository through a chart reference: `helm pull local/<chart> --verify` and
+	// `helm install local/<chart> --verify` (URL taken from the cached repository index)
+	{
+		sub := filepath.Join(root, "byref")
+		cache := filepath.Join(sub, "cache")
+		os.MkdirAll(cache, 0o755)
+		cfg := filepath.Join(sub, "repositories.yaml")
+		os.WriteFile(cfg, []byte("apiVersion: \"\"\nrepositories:\n- name: local\n  url: "+repoURL+"\n"), 0o644)
+		os.WriteFile(filepath.Join(cache, "local-index.yaml"), idx, 0o644)
+		for _, st := range []struct {
+			name  string
+			strat downloader.VerificationStrategy
+		}{{"DownloadTo(repo/chart,VerifyAlways)", downloader.VerifyAlways}, {"DownloadTo(repo/chart,VerifyIfPossible)", downloader.VerifyIfPossible}} {
+			var vd verdict
+			dest := filepath.Join(sub, "dest-"+fmt.Sprint(int(st.strat)))
+			os.MkdirAll(dest, 0o755)
+			core.Guard(c.res, st.name, func() {
+				dl := downloader.ChartDownloader{Out: io.Discard, Verify: st.strat, Keyring: ringFile, Getters: httpOnly, RepositoryConfig: cfg, RepositoryCache: cache}
+				_, v, err := dl.DownloadTo("local/"+w.name, w.version, dest)
+				vd = fromVer(v, err)
+			})
+			c.judge(st.name, part, kind, expect, hard, vd, sum, detail)
+		}
+		var vd verdict
+		core.Guard(c.res, "LocateChart(repo/chart,verify)", func() {
+			st := *w.settings
+			st.RepositoryConfig, st.RepositoryCache = cfg, cache
+			o := action.ChartPathOptions{Verify: true, Keyring: ringFile, Version: w.version}
+			_, err := o.LocateChart("local/"+w.name, &st)
+			vd = verdict{ok: err == nil, err: err, hash: sum}
+		})
+		c.judge("LocateChart(repo/chart,verify)", part, kind, expect, hard, vd, sum, detail)
 	}
 	// Build from a lock: first a good state (genuine pair, signer-only keyring), then the pair under test
 	if base == w.base {
@@ -1154,32 +1187,51 @@ func (c *checker) structural(rng *rand.Rand, origBlk *clearsign.Block) {
 	type rn struct {
 		kind, rel string
 		same      bool
+		tamper    bool // additionally flip one bit of the archive bytes
 	}
 	rns := []rn{
-		{"moved-same-basename", filepath.Join("moved", "deeper", w.base), true},
-		{"prefix-added", "x-" + w.base, false},
-		{"suffix-added", stem + "-copy.tgz", false},
-		{"version-shortened", stem[:len(stem)-1] + ".tgz", false},
-		{"case-changed", flipCase(w.base), false},
-		{"extension-case-changed", stem + ".TGZ", false},
-		{"other-chart-name", "zzz-other-9.9.9.tgz", false},
-		{"basename-is-prov-name", w.base + ".prov.tgz", false},
+		{"moved-same-basename", filepath.Join("moved", "deeper", w.base), true, false},
+		{"prefix-added", "x-" + w.base, false, false},
+		{"suffix-added", stem + "-copy.tgz", false, false},
+		{"version-shortened", stem[:len(stem)-1] + ".tgz", false, false},
+		{"case-changed", flipCase(w.base), false, false},
+		{"extension-case-changed", stem + ".TGZ", false, false},
+		{"other-chart-name", "zzz-other-9.9.9.tgz", false, false},
+		{"basename-is-prov-name", w.base + ".prov.tgz", false, false},
+	}
+	// file names that do not end in .tgz: with verification required such a download can never be
+	// verified (the signed name is <name>-<version>.tgz), so it must fail — untouched and tampered alike
+	for _, ext := range []string{".tar.gz", ".tar", "", ".tgz.bak", ".zip", ".tgz.", ".TAR.GZ"} {
+		label := "extension-" + strings.Trim(strings.ToLower(ext), ".")
+		if ext == "" {
+			label = "no-extension"
+		} else if ext == ".tgz." {
+			label = "extension-tgz-dot"
+		} else if ext == ".TAR.GZ" {
+			label = "extension-tar.gz-upper"
+		}
+		rns = append(rns, rn{label, stem + ext, false, false}, rn{label + "+tampered-bytes", stem + ext, false, true})
 	}
 	for _, r := range rns {
 		np := filepath.Join(w.dir, "renamed", r.rel)
 		os.MkdirAll(filepath.Dir(np), 0o755)
-		os.WriteFile(np, w.archive, 0o644)
+		data := w.archive
+		if r.tamper {
+			data = append([]byte(nil), w.archive...)
+			data[len(data)/2] ^= 0x04
+		}
+		os.WriteFile(np, data, 0o644)
 		os.WriteFile(np+".prov", w.prov, 0o644)
 		det := func() string {
-			return fmt.Sprintf("archive %s stored as %q with its untouched provenance; keyring = signer only", w.base, r.rel)
+			return fmt.Sprintf("archive %s stored / served as %q (bytes tampered: %v) with its untouched provenance as %q; keyring = signer only", w.base, r.rel, r.tamper, r.rel+".prov")
 		}
 		out := "reject"
 		if r.same {
 			out = "accept"
 		}
 		res.Stat("renames_"+out, 1)
-		c.verifyPair("rename", r.kind, np, w.sigA, w.ringA, r.same, true, true, w.sum, det)
-		c.download("rename", r.kind, filepath.Base(np), w.archive, w.prov, w.ringA, r.same, true, w.sum, det)
+		c.verifyPair("rename", r.kind, np, w.sigA, w.ringA, r.same, true, true, digest(data), det)
+		c.download("rename", r.kind, filepath.Base(np), data, w.prov, w.ringA, r.same, true, digest(data), det)
 		os.RemoveAll(filepath.Join(w.dir, "renamed"))
 	}
 }
